@@ -189,3 +189,131 @@ Definition opening_ok (p : phase) : bool := match p with awaiting => true | _ =>
 (* the phase after an opening header section: a 1xx response leaves the direction waiting *)
 Definition after_opening (eos info : bool) : phase :=
   if eos then done else if info then awaiting else body.
+
+(* ---------------------------------------------------------------------------------------------
+   Wire view of ONE stream, as both ends can know it from the frames that crossed (RFC 9113 5.1, 5.1.1,
+   6.4, 6.6, 8.1): used for the sender-side life cycle (what an endpoint may put on the wire) and for the
+   reaction a receiver owes to a frame.  Added for the dispatch layer (Model/Dispatch.v). *)
+
+(* who may open the stream: [local] = the identifier is one this endpoint initiates (5.1.1: clients odd,
+   servers even).  On an idle stream HEADERS is acceptable only from the side that initiates it. *)
+Definition receiver_must_for (local : bool) (s : rfc_state) (h : closed_how) (t : ftype) : verdict :=
+  match s, t with
+  | idle, PRIORITY => accept
+  | idle, HEADERS => if local then conn_error else accept
+  | _, _ => receiver_must s h t
+  end.
+
+(* 5.4: the error codes with which an endpoint accuses its peer of a protocol violation (as opposed to
+   NO_ERROR, INTERNAL_ERROR, REFUSED_STREAM, CANCEL, ENHANCE_YOUR_CALM ... which blame nobody's framing):
+   PROTOCOL_ERROR 1, FLOW_CONTROL_ERROR 3, STREAM_CLOSED 5, FRAME_SIZE_ERROR 6, COMPRESSION_ERROR 9 *)
+Definition violation_code (c : N) : bool :=
+  N.eqb c 1 || N.eqb c 3 || N.eqb c 5 || N.eqb c 6 || N.eqb c 9.
+
+(* What the endpoint puts on the wire for one stream, and what it took from the peer on it. *)
+Inductive tx :=
+| THeaders (eos info : bool)     (* HEADERS opening a message, or an interim (1xx) response *)
+| TData (eos : bool)
+| TTrailers                      (* HEADERS after the body: always END_STREAM (8.1) *)
+| TPushOn                        (* PUSH_PROMISE carried on this stream *)
+| TPromised                      (* this stream is reserved by a PUSH_PROMISE the endpoint sent *)
+| TReset
+| TWindowUpdate.
+
+Inductive wev :=
+| WTx (t : tx)
+| WRx (k : ekind)                (* a peer event the endpoint accepted on this stream *)
+| WRxRefused.                    (* a peer frame on this stream that the endpoint answers with a stream error *)
+
+(* who may use the identifier first *)
+Inductive opener :=
+| ByUsHeaders                    (* a client's own (odd) identifier: opened by HEADERS *)
+| ByUsPromise                    (* a server's own (even) identifier: only through PUSH_PROMISE *)
+| ByPeer.                        (* the peer's identifier: nothing is sent before the peer used it *)
+
+Record wview := mkWV {
+  w_state : rfc_state;
+  w_phase : phase;               (* 8.1: where the message this endpoint sends stands *)
+  w_how : closed_how;            (* how the stream got closed, once it is *)
+  w_owed : bool                  (* a stream error has been raised for a peer frame and not been sent yet *)
+}.
+
+Definition wv_init : wview := mkWV idle awaiting by_end_stream false.
+
+Definition set_w (v : wview) (s : rfc_state) (p : phase) : wview := mkWV s p (w_how v) (w_owed v).
+
+(* one step of the wire view; None = the RFC forbids the endpoint to send this frame now *)
+Definition wire_step (o : opener) (v : wview) (e : wev) : option wview :=
+  let s := w_state v in
+  match e with
+  | WTx (THeaders eos info) =>
+    (* 5.1: HEADERS where the state allows it; on an idle stream only the initiator, and a server opens its
+       own streams with PUSH_PROMISE only; 8.1: header section of the message, 1xx never ends the stream *)
+    if negb (sender_may s HEADERS) then None
+    else if (match s, o with idle, ByUsHeaders => false | idle, _ => true | _, _ => false end) then None
+    else if negb (opening_ok (w_phase v)) then None
+    else if info && eos then None
+    else match rfc_step s Send (if eos then KHES else KH) with
+         | Some s' => Some (set_w v s' (after_opening eos info))
+         | None => None
+         end
+  | WTx (TData eos) =>
+    if negb (sender_may s DATA) then None
+    else match w_phase v with
+         | body =>
+           if eos then match rfc_step s Send KES with
+                       | Some s' => Some (set_w v s' done)
+                       | None => None
+                       end
+           else Some v
+         | _ => None
+         end
+  | WTx TTrailers =>
+    if negb (sender_may s HEADERS) then None
+    else match w_phase v with
+         | body => match rfc_step s Send KES with
+                   | Some s' => Some (set_w v s' done)
+                   | None => None
+                   end
+         | _ => None
+         end
+  | WTx TPushOn =>
+    (* 6.6 / 8.4: on a peer-initiated stream that is open or half-closed (remote) *)
+    match o, s with
+    | ByPeer, (open | half_closed_remote) => Some v
+    | _, _ => None
+    end
+  | WTx TPromised =>
+    match o, s with
+    | ByUsPromise, idle => Some (set_w v reserved_local awaiting)
+    | _, _ => None
+    end
+  | WTx TReset =>
+    (* 6.4: never on an idle stream; 5.1: not on a closed one - except as the stream error owed to a frame
+       of the peer (5.4.2), and except that a stream closed by the PEER's RST_STREAM may see ours cross it
+       (indistinguishable on the wire from resets that crossed) *)
+    if sender_may s RST_STREAM || w_owed v
+       || (match s, w_how v with closed, by_recv_reset => true | _, _ => false end)
+    then Some (mkWV closed done (match s with closed => w_how v | _ => by_sent_reset end) false)
+    else None
+  | WTx TWindowUpdate =>
+    if sender_may s WINDOW_UPDATE then Some v else None
+  | WRx k =>
+    Some (match rfc_step s Recv k with
+          | Some s' => mkWV s' (w_phase v)
+                            (match k, s with KR, closed => w_how v | KR, _ => by_recv_reset | _, _ => w_how v end)
+                            (w_owed v)
+          | None => v
+          end)
+  | WRxRefused => Some (mkWV s (w_phase v) (w_how v) true)
+  end.
+
+Fixpoint wire_run (o : opener) (v : wview) (es : list wev) : option wview :=
+  match es with
+  | [] => Some v
+  | e :: es' => match wire_step o v e with Some v' => wire_run o v' es' | None => None end
+  end.
+
+(* the frames of one stream form a word of the sender automaton *)
+Definition wire_accepts (o : opener) (es : list wev) : bool :=
+  match wire_run o wv_init es with Some _ => true | None => false end.
